@@ -104,10 +104,13 @@ def _dispatch(repo, rep):
     ok_q = ok_opt = False
     for conds, leaf in _leaves(v):
         t = A.show(leaf, limit=6)
-        if any("startswith('<!--?')" in c and b for c, b in conds):
+        if L.cond_holds(conds, "node.startswith('<!--?')", True,
+                        contains=True):
             ok_q = "Interpolation" not in t and "nodes.Text" in t
-        if any("not self.enable_comment_interpolation" in c and b
-               for c, b in conds):
+        if L.cond_holds(conds, "self.enable_comment_interpolation", False,
+                        contains=True) or L.cond_holds(
+                            conds, "not self.enable_comment_interpolation",
+                            True, contains=True):
             ok_opt = t == "nodes.Text(node)"
     rep.check(ok_q, "R06.1", f.qualname, "'<!--?' comments are emitted "
               "literally, nothing is evaluated", construct="comment-q",
